@@ -321,11 +321,23 @@ def check_diagram(spec, plan, evaluate, reference, labels):
     xs = lambdify_order(symbols, plan)
     if xs:
         vals = [plan["env"][x] for x in xs]
-        lam = d.lambdify(*[sym(x) for x in xs])(*vals)
+        function = d.lambdify(*[sym(x) for x in xs])
+        lam = function(*vals)
         sub = d.subs([(sym(x), v) for x, v in zip(xs, vals)])
         require(structure(lam) == structure(d),
                 "C14:lambdify-changes-structure",
                 lambda: "{} -> {}".format(d, lam))
+        # the function is called again, on other values
+        env3 = dict(plan["env"])
+        for k, x in enumerate(xs):
+            env3[x] = plan["env"][x] - 0.75 + 0.125 * k
+        lam3 = function(*[env3[x] for x in xs])
+        require(structure(lam3) == structure(d),
+                "C14:lambdify-changes-structure",
+                lambda: "second call of the lambdified {}: {}".format(d, lam3))
+        same(to_complex(evaluate(lam3), {}),
+             reference(subst_spec(spec, env3)), "lambdify-second-call",
+             common.show(d))
         ref_l = reference(subst_spec(spec, dict(plan["env"])))
         same(to_complex(evaluate(lam), {}), ref_l, "lambdify-eval",
              common.show(d))
